@@ -28,6 +28,9 @@ type c16Case struct {
 	Tree    []c16Entry `json:"tree"`
 	Pattern string     `json:"pattern"`
 	Abs     bool       `json:"abs"` // the pattern is to be prefixed with the tree's absolute path
+	// AbsForm varies how that absolute path is written: 1 = the first slash
+	// is escaped, 2 = every slash is escaped, 3 = the first slash is doubled
+	AbsForm int `json:"abs_form,omitempty"`
 }
 
 func buildTree(root string, tree []c16Entry) error {
@@ -84,7 +87,16 @@ func withTree(tree []c16Entry, fn func(root string) error) error {
 func checkC16InTree(root string, c c16Case) (skip string, err error) {
 	pat := c.Pattern
 	if c.Abs {
-		pat = root + "/" + pat
+		r := root
+		switch c.AbsForm {
+		case 1:
+			r = `\` + r
+		case 2:
+			r = strings.ReplaceAll(r, "/", `\/`)
+		case 3:
+			r = "/" + r
+		}
+		pat = r + "/" + pat
 	}
 	want, ok := ref.Glob(pat)
 	var got []string
@@ -306,6 +318,9 @@ func TestC16(t *testing.T) {
 					pat = strings.TrimPrefix(strings.TrimPrefix(pat, `\`), "/")
 				}
 				c := c16Case{Tree: tree, Pattern: pat, Abs: rapid.IntRange(0, 7).Draw(rt, "abs") == 0}
+				if c.Abs {
+					c.AbsForm = rapid.SampledFrom([]int{0, 0, 1, 2, 3}).Draw(rt, "abs_form")
+				}
 				skip, err := checkC16InTree(root, c)
 				if err != nil {
 					fail(rt, "C16", "glob", c, "%v\ntree: %+v", err, tree)
@@ -316,6 +331,9 @@ func TestC16(t *testing.T) {
 				st.Eval(skip == "" && c16NonTrivial(pat), fmt.Sprint(tree), pat, fmt.Sprint(c.Abs))
 				if c.Abs {
 					st.Class("absolute_pattern")
+					if c.AbsForm == 1 || c.AbsForm == 2 {
+						st.Class("absolute_pattern_escaped_first_slash")
+					}
 				}
 				if k == 0 {
 					st.Sample(map[string]any{"tree": tree, "pattern": pat, "abs": c.Abs})
